@@ -152,6 +152,58 @@ func returnsFrom(starts []ir.Point, s ir.Search) []retVia {
 	return out
 }
 
+// retAlias: a return reached on some path, with the value result #idx holds on that path (phis met on the way
+// replaced by the definition that arrived over the edges taken).
+type retAlias struct {
+	ret *ssa.Return
+	via *ssa.BasicBlock
+	val ssa.Value
+}
+
+// returnsFromEdgesAlias: like returnsFromAlias, for paths that begin by taking one of the given edges (the search
+// starts at the branch instruction of the edge's source block, so the phis of the target block are resolved too).
+func returnsFromEdgesAlias(es []edge, idx int) []retAlias {
+	var out []retAlias
+	for _, e := range es {
+		e := e
+		if len(e.b.Instrs) == 0 {
+			continue
+		}
+		out = append(out, returnsFromAliasS([]ir.Point{{Block: e.b, Idx: len(e.b.Instrs) - 1}}, idx, func(b *ssa.BasicBlock, si int) bool {
+			return b == e.b && si != e.si
+		})...)
+	}
+	return out
+}
+
+func returnsFromAlias(starts []ir.Point, idx int) []retAlias {
+	return returnsFromAliasS(starts, idx, nil)
+}
+
+func returnsFromAliasS(starts []ir.Point, idx int, stopEdge func(*ssa.BasicBlock, int) bool) []retAlias {
+	var out []retAlias
+	type k struct {
+		r   *ssa.Return
+		via *ssa.BasicBlock
+		v   ssa.Value
+	}
+	seen := map[k]bool{}
+	ir.Search{TrackPhis: true, StopEdge: stopEdge, VisitAlias: func(ins ssa.Instruction, via *ssa.BasicBlock, resolve func(ssa.Value) ssa.Value) {
+		r, ok := ins.(*ssa.Return)
+		if !ok || idx >= len(r.Results) {
+			return
+		}
+		v := resolve(ir.Resolve(ir.ResultVia(r, idx, via)))
+		v = ir.Resolve(v)
+		key := k{r, via, v}
+		if !seen[key] {
+			seen[key] = true
+			out = append(out, retAlias{r, via, v})
+		}
+	}}.Reach(starts, func(ssa.Instruction, *ssa.BasicBlock) {})
+	return out
+}
+
 func edgeStarts(es []edge) []ir.Point {
 	var out []ir.Point
 	for _, e := range es {
@@ -200,9 +252,9 @@ func (c *Ctx) checkErrorPropagation(rule string, fn *ssa.Function, pick func(*ss
 				// carry this very value (or a definitely non-nil error), unless the path
 				// established it nil - otherwise a later assignment silently drops it
 				lost := ""
-				rets := returnsFrom([]ir.Point{ir.After(call)}, ir.Search{})
+				rets := returnsFromAlias([]ir.Point{ir.After(call)}, ei)
 				for _, rv := range rets {
-					v := ir.ResultVia(rv.ret, ei, rv.via)
+					v := rv.val
 					if ir.Resolve(v) == ir.Resolve(errv) {
 						continue
 					}
@@ -226,8 +278,8 @@ func (c *Ctx) checkErrorPropagation(rule string, fn *ssa.Function, pick func(*ss
 				continue
 			}
 			bad := ""
-			for _, rv := range returnsFrom(edgeStarts(es), ir.Search{}) {
-				v := ir.ResultVia(rv.ret, ei, rv.via)
+			for _, rv := range returnsFromEdgesAlias(es, ei) {
+				v := rv.val
 				raw := rv.ret.Results[ei]
 				facts := factsAt(rv.ret.Block(), rv.via)
 				for _, e := range es {
